@@ -22,7 +22,7 @@
 From Coq Require Import List Bool Arith NArith ZArith String Ascii.
 From Eino Require Import Base.Util Base.Universe Model.Ser Model.SerCheckpoint Model.SerLits Model.SerStore
      Proofs.Ser Proofs.SerLoud Proofs.SerTop Proofs.SerReg Proofs.SerRefl Proofs.SerTotal
-     Proofs.SerLit Proofs.SerStore Model.SerCanon Proofs.SerCanon.
+     Proofs.SerLit Proofs.SerStore Model.SerCanon Proofs.SerCanon Model.SerStream Proofs.SerStream.
 Import ListNotations.
 
 (* 1. Round trip: whatever the encoder accepts comes back equivalent, with the identical
@@ -464,3 +464,57 @@ Proof.
   cbv zeta. split; [vm_compute; reflexivity|]. split; [apply safeb_safe; vm_compute; reflexivity|].
   split; [apply defs_okb_ok; vm_compute; reflexivity|]. vm_compute. reflexivity.
 Qed.
+
+(* 9. A value that sits in a checkpoint as a stream (pending input / channel value of a streaming
+      run; compose/checkpoint.go convertCheckPoint / restoreCheckPoint, Model/SerStream.v): what the
+      successor is handed after the resume is what it would have been handed without the interrupt.
+      A stream without chunks comes back without chunks; a stream with chunks comes back as the
+      one-chunk stream of its concatenation - in particular a stream of at most one chunk (what a
+      non-streaming predecessor leaves) comes back as itself, the one chunk nil included (F-C12l).
+      For every concatenation function that is the identity on one chunk. *)
+Theorem stream_checkpoint_conversion_roundtrip :
+  forall (concat : list chunk -> res chunk) s st,
+    convert concat true s = Ok st ->
+    match s with
+    | [] => restore_stream st = []
+    | _ => exists c, concat s = Ok c /\ restore_stream st = [c]
+    end.
+Proof. exact convert_restore. Qed.
+Print Assumptions stream_checkpoint_conversion_roundtrip.
+Theorem stream_checkpoint_conversion_short_streams :
+  forall (concat : list chunk -> res chunk) (concat_single : forall c, concat [c] = Ok c) s st,
+    List.length s <= 1 -> convert concat true s = Ok st -> restore_stream st = s.
+Proof. exact convert_restore_short. Qed.
+Print Assumptions stream_checkpoint_conversion_short_streams.
+(* resumed without streams (Invoke) the successor is handed the concatenation *)
+Theorem stream_checkpoint_conversion_value :
+  forall (concat : list chunk -> res chunk) s st c,
+    s <> [] -> convert concat true s = Ok st -> concat s = Ok c -> restore_value st = c.
+Proof. exact convert_restore_value. Qed.
+Print Assumptions stream_checkpoint_conversion_value.
+(* a pending input written by a run without streams (the value itself; a nil one is written as the
+   marker since fix fb04a24): resumed through Stream the successor gets the one-chunk stream of the
+   value, resumed through Invoke the value *)
+Theorem value_checkpoint_conversion_roundtrip : forall c : chunk,
+  restore_stream (convert_value true c) = [c] /\ restore_value (convert_value true c) = c.
+Proof. exact (convert_value_restore (fun _ => Panic)). Qed.
+Print Assumptions value_checkpoint_conversion_roundtrip.
+Theorem value_checkpoint_conversion_v0_refuted :
+  restore_stream (convert_value false None) = [] /\ [@None val] <> [].
+Proof. exact convert_value_v0_counterexample. Qed.
+Print Assumptions value_checkpoint_conversion_v0_refuted.
+(* before fix 5464095 the stream of the one chunk nil came back as a stream without chunks *)
+Theorem stream_checkpoint_conversion_v0_refuted :
+  convert concat_c false [None] = Ok SNil /\ restore_stream SNil = [] /\ [@None val] <> [].
+Proof. exact convert_restore_v0_counterexample. Qed.
+Print Assumptions stream_checkpoint_conversion_v0_refuted.
+(* non-vacuity: the three stored forms are well typed under compose's registrations, accepted by
+   the encoder and read back; the conversion of [nil], [] and ["x"] with the concatenation the
+   correspondence check uses *)
+Example stream_conversion_nonvacuous :
+  wt (ckpt_senv []) (stored_val SNilChunk) = true /\
+  (do oi <- enc_c fixed (ckpt_reg []) (stored_val SNilChunk); dec_c fixed (ckpt_reg []) (ckpt_senv []) oi) = Ok nil_chunk_val /\
+  (do st <- convert concat_c true [None]; Ok (restore_stream st)) = Ok [None] /\
+  (do st <- convert concat_c true []; Ok (restore_stream st)) = Ok [] /\
+  (do st <- convert concat_c true [Some (vstr "x")]; Ok (restore_stream st)) = Ok [Some (vstr "x")].
+Proof. repeat split; vm_compute; reflexivity. Qed.
